@@ -113,8 +113,8 @@ Definition lrank (p : pc) (s : bst) : nat :=
   | PcInner =>
       match b_sock s with
       | NoSock => 3
-      | Up _ None => 4
-      | Up _ (Some _) => 5
+      | Up _ _ None => 4
+      | Up _ _ (Some _) => 5
       | Pending _ => 6
       end
   | PcFirst => 7
@@ -153,7 +153,7 @@ Ltac bcase1 :=
 Ltac bcases := repeat (bcase1; bproj; cbn beta iota zeta).
 
 Ltac unfold_ctl :=
-  unfold step, loop_once, loop_up, read_pending, refused_connack, failed, rc_handle, write_disconnect, do_reconnect in *.
+  unfold step, loop_once, loop_up, lose, read_pending, refused_connack, failed, rc_handle, write_disconnect, do_reconnect in *.
 
 Ltac fin_rank :=
   frames; unfold lrank; bproj; cbn [length];
